@@ -122,10 +122,107 @@ let c15 tys =
       (show_bool sfix) (hn (spec_fixed_len t)) (hn (spec_min_len t)) (hn smax)
   else base ^ " overflow=1"
 
+
+(* ---- C08 ---- *)
+let c08_merk h zh count limit leaves =
+  let count = nh count and limit = nh limit in
+  let bs = bytes_of_hex leaves in
+  let rec chunks l = match l with [] -> [] | _ ->
+    let rec take n l = if n = 0 then ([], l) else (match l with [] -> ([], []) | x :: r -> let (a, b) = take (n-1) r in (x :: a, b)) in
+    let (c, r) = take 32 l in c :: chunks r in
+  let cs = Array.of_list (chunks bs) in
+  let leaf i = let k = int_of_n i in if k < Array.length cs then cs.(k) else zero_chunk in
+  let r = rs hb (merkleize h zh count limit leaf) in
+  let used = int_of_n (if N.ltb limit count then limit else count) in
+  let spec = hb (merkleize_spec h (Array.to_list (Array.sub cs 0 (min used (Array.length cs)))) limit) in
+  Printf.sprintf "root=%s spec_root=%s" r spec
+
+let c08 h zh tys vals =
+  let t = ty_of tys and v = val_of vals in
+  Printf.sprintf "root=%s spec_root=%s" (rs hb (flat_htr h zh t v)) (hb (spec_htr h t v))
+
+(* ---- C09 / C10 ---- *)
+let rec ctree_of (t : ty) (v : val0) : ctree =
+  let nlen l = n_of_int (List.length l) in
+  match t, v with
+  | TBytes _, VBytes bs -> CBytes (nlen bs, nlen bs)
+  | TBitvector _, VBits bs -> let k = n_of_int ((List.length bs + 7) / 8) in CBytes (k, k)
+  | TBitlist _, VBits bs -> let k = n_of_int (List.length bs / 8 + 1) in CBytes (k, k)
+  | TVector (TUint w, _), VSeq vs when int_of_n w = 1 -> CBytes (nlen vs, nlen vs)
+  | TList (TUint w, _), VSeq vs when int_of_n w = 1 -> CBytes (nlen vs, nlen vs)
+  | TVector (e, _), VSeq vs -> CNodes (List.map (ctree_of e) vs)
+  | TContainer fs, VCont vs -> CNodes (List.map2 ctree_of fs vs)
+  | _ -> CFresh
+
+let sval v = String.map (fun c -> if c = ' ' then '_' else c) (string_of_val v)
+
+let c09 tys vals prevs =
+  let t = ty_of tys and v = val_of vals in
+  let c = if prevs = "-" then CFresh else ctree_of t (val_of prevs) in
+  let enc = flat_enc t v in
+  let sbytes = spec_ser t v in
+  let dec = match enc with
+    | OK bs -> rs (fun (v', _) -> sval v') (flat_decode t c bs)
+    | Err -> "ERR" | Panic -> "PANIC" in
+  Printf.sprintf "enc=%s blen=%s dec=%s spec_enc=%s spec_blen=%s spec_dec=%s"
+    (rs hb enc) (hn (flat_len t v)) dec (hb sbytes) (hn (n_of_int (List.length sbytes))) (sval v)
+
+let c10 tys data =
+  let t = ty_of tys in
+  let bs = bytes_of_hex data in
+  match flat_decode t CFresh bs with
+  | Err -> "res=ERR reenc=- valid=1 spec_valid=1"
+  | Panic -> "res=PANIC reenc=- valid=1 spec_valid=1"
+  | OK (v, _) ->
+    let valid = has_type v t && spec_ser t v = bs in
+    Printf.sprintf "res=OK reenc=%s valid=%s spec_valid=1" (rs hb (flat_enc t v)) (show_bool valid)
+
+(* ---- C17 ---- *)
+let show_steps h (l : istep list) : string =
+  if l = [] then "-" else
+  String.concat "," (List.map (fun s -> match s with
+    | IVal (VUint x) -> hn x
+    | IVal (VBool b) -> show_bool b
+    | IVal v -> sval v
+    | INode (t, n) -> hb (root_of h n)
+    | IEnd -> "END" | IErr -> "ERR" | IPanic -> "PANIC") l)
+
+let c17 h zh tys vals =
+  let t = ty_of tys and v = val_of vals in
+  match from_val zh t v with
+  | OK n ->
+    Printf.sprintf "ro=%s ix=%s get=%s" (show_steps h (ro_iter t n (nat_of_int 3)))
+      (show_steps h (ix_iter t n (nat_of_int 3))) (show_steps h (get_all t n))
+  | Err -> "ro=ERR ix=ERR get=ERR" | Panic -> "ro=PANIC ix=PANIC get=PANIC"
+
+(* ---- C19 ---- *)
+let show_cres f r = match r with
+  | COk a -> "OK " ^ f a | CSyntax -> "ESYNTAX" | CRange -> "ERANGE" | CEmpty -> "EEMPTY"
+  | CQuote -> "EQUOTE" | COther -> "EOTHER"
+let c19 op args =
+  match op, args with
+  | "umt", [n] -> hb (uint_marshal_text (nh n))
+  | "umj", [n] -> hb (uint_marshal_json (nh n))
+  | "uut", [w; text] -> show_cres hn (uint_unmarshal_text (bytes_of_hex text) (nh w))
+  | "uuj", [w; text] -> show_cres hn (uint_unmarshal_json_cast (bytes_of_hex text) (nh w))
+  | "u256ut", [text] -> show_cres hn (u256_unmarshal_text (bytes_of_hex text))
+  | "u256uj", [text] -> show_cres hn (u256_unmarshal_json (bytes_of_hex text))
+  | "hexm", [bs] -> hb (bytes_marshal_text (bytes_of_hex bs))
+  | "hexu", [k; text] ->
+    (match fixed_bytes_unmarshal (nh k) (bytes_of_hex text) with
+     | Some bs -> "OK " ^ hb bs | None -> "ERR")
+  | _ -> failwith "bad c19 op"
+
 let dispatch set_cfg cur_h cur_zh (op : string) (args : string list) : string =
   match op, args with
   | "c01", [cfg; t; v; route] -> set_cfg cfg; c01 !cur_h !cur_zh cfg t v route
   | "c02", [cfg; t; v] -> set_cfg cfg; c02 !cur_h !cur_zh t v
   | "c03", [t; data] -> set_cfg "sha"; c03 !cur_zh t data
   | "c15", [t] -> c15 t
+  | "merk", [cfg; count; limit; leaves] -> set_cfg cfg; c08_merk !cur_h !cur_zh count limit leaves
+  | "c08", [cfg; t; v] -> set_cfg cfg; c08 !cur_h !cur_zh t v
+  | "c09", [t; v; prev] -> c09 t v prev
+  | "c10", [t; data] -> c10 t data
+  | "c17", [t; v] -> set_cfg "sha"; c17 !cur_h !cur_zh t v
+  | ("umt" | "umj" | "uut" | "uuj" | "u256ut" | "u256uj" | "hexm" | "hexu"), _ -> c19 op args
   | _ -> failwith ("unknown op " ^ op)
